@@ -36,7 +36,7 @@ def plain(hl) -> list[dict]:
 
 
 # ---------------------------------------------------------------------------- Headers mutators
-C0 = {"m": "", "n": [], "i": 0, "j": 0, "vs": [], "ps": [], "kn": [], "kv": [], "form": ""}
+C0 = {"m": "", "n": [], "i": 0, "j": 0, "vs": [], "ps": [], "kn": [], "kv": [], "form": "", "kind": "str"}
 
 
 def mkcall(m, **kw) -> dict:
@@ -353,15 +353,21 @@ def rand_kind(rng):
 
 
 def rand_call(rng, nlen):
+    kind = rand_kind(rng)
+    c = _rand_call(rng, nlen, kind)
+    c["kind"] = kind
+    return c
+
+
+def _rand_call(rng, nlen, kind):
     m = rng.choice(["add", "add_kw", "set", "set_kw", "setitem", "setdefault", "setlist", "setlistdefault",
                     "setitem_int", "setitem_slice", "extend", "update", "update", "extend", "remove", "clear"])
     n = cps(rng.choice(NAMES))
 
-    kind = rand_kind(rng)
-
     def one():
-        if kind == "literal":
-            return str(rng.choice(LITERALS))
+        if kind == "literal":    # list / tuple / None literals only where a single value is expected (mappings flatten them)
+            single = m in ("add", "set", "setitem", "setdefault", "setitem_int", "setlist", "setlistdefault")
+            return str(rng.choice(LITERALS if single else [x for x in LITERALS if type(x) in (bytes, float, int, bool)]))
         if kind == "int" and rng.random() < 0.7:
             return str(rng.choice([0, 7, -3, 12345678901234567890]))
         return rand_value(rng)
@@ -374,30 +380,30 @@ def rand_call(rng, nlen):
         return [{"n": cps(nm), "vs": vals(rng.randint(0, 3) if lists else 1)} for nm in names]
 
     if m in ("add", "set", "setitem", "setdefault"):
-        return _k(kind, mkcall(m, n=n, vs=vals(1))
+        return mkcall(m, n=n, vs=vals(1))
     if m in ("add_kw", "set_kw"):
-        return _k(kind, mkcall(m, n=n, vs=[cps(rng.choice(["attachment", "a", "é"]))], kn=cps(rng.choice(["filename", "p", "x_y"])),
-                      kv=cps(rand_value(rng)))
+        return mkcall(m, n=n, vs=[cps(rng.choice(["attachment", "a", "é"]))], kn=cps(rng.choice(["filename", "p", "x_y"])),
+                      kv=cps(one()))
     if m in ("setlist", "setlistdefault"):
-        return _k(kind, mkcall(m, n=n, vs=vals(rng.randint(0, 3)))
+        return mkcall(m, n=n, vs=vals(rng.randint(0, 3)))
     if m == "setitem_int":
         if nlen == 0:
-            return _k(kind, mkcall("add", n=n, vs=vals(1))
-        return _k(kind, mkcall(m, n=n, vs=vals(1), i=rng.randrange(nlen))
+            return mkcall("add", n=n, vs=vals(1))
+        return mkcall(m, n=n, vs=vals(1), i=rng.randrange(nlen))
     if m == "setitem_slice":
         i = rng.randint(0, nlen)
-        return _k(kind, mkcall(m, i=i, j=rng.randint(i, nlen), ps=pairs(rng.randint(0, 3)))
+        return mkcall(m, i=i, j=rng.randint(i, nlen), ps=pairs(rng.randint(0, 3)))
     if m in ("extend", "update"):
         form = rng.choice(["pairs", "dict", "dictlist"] + (["kwargs"] if m == "update" else []))
         if form == "pairs":
-            return _k(kind, mkcall(m, ps=pairs(rng.randint(0, 3)), form=form)
+            return mkcall(m, ps=pairs(rng.randint(0, 3)), form=form)
         if form == "kwargs":
             names = rng.sample(["X", "x", "Y"], rng.randint(0, 3))
-            return _k(kind, mkcall(m, ps=[{"n": cps(nm), "vs": vals(rng.randint(0, 3))} for nm in names], form=form)
-        return _k(kind, mkcall(m, ps=pairs(rng.randint(0, 3), distinct=True, lists=(form == "dictlist")), form=form)
+            return mkcall(m, ps=[{"n": cps(nm), "vs": vals(rng.randint(0, 3))} for nm in names], form=form)
+        return mkcall(m, ps=pairs(rng.randint(0, 3), distinct=True, lists=(form == "dictlist")), form=form)
     if m == "remove":
-        return _k(kind, mkcall(m, n=n)
-    return _k(kind, mkcall("clear")
+        return mkcall(m, n=n)
+    return mkcall("clear")
 
 
 def rand_history_lines(rng, steps):
@@ -825,4 +831,89 @@ def exception_specs(rng, per_class):
             elif name == "BadRequestKeyError":
                 spec["arg"] = {"has": True, "key": cps(rng.choice(TEXTS))}
             specs.append(spec)
+    return specs
+
+
+# ---------------------------------------------------------------------------- header value kinds through the Response API
+API_POINTS = ["headers_item", "headers_add", "headers_setdefault", "ctor_list", "ctor_dict", "ctor_dictlist", "ctor_headers",
+              "location", "content_location", "content_type", "mimetype", "content_encoding", "content_md5", "content_language",
+              "allow", "vary", "set_etag", "set_cookie_value", "set_cookie_key", "set_cookie_path", "set_cookie_domain",
+              "set_cookie_samesite", "delete_cookie_path", "redirect", "ctor_mimetype", "ctor_content_type", "www_authenticate_realm"]
+API_TEXTS = ["a", "a\r\nX-Injected: 1", "\n", "x\ry", "/p\r\n", "é\n", "text/plain", "7", "b'a\\r\\nb'", "('a\\r\\nX: y',)"]
+
+
+def api_case(spec):
+    """spec = {api, text, kind}: hand one value of the given kind to an entry point of Response that stores a header
+    value, then record the header list the server would get (get_wsgi_response), else the stored list."""
+    from werkzeug.datastructures import Headers, WWWAuthenticate
+    from werkzeug.utils import redirect
+    from werkzeug.wrappers import Response
+
+    api, kind = spec["api"], spec["kind"]
+    v = val(txt(spec["text"]), kind)
+    resp = None
+    exc = ""
+    try:
+        if api == "ctor_list":
+            resp = Response("x", headers=[("X", v)])
+        elif api == "ctor_dict":
+            resp = Response("x", headers={"X": v})
+        elif api == "ctor_dictlist":
+            resp = Response("x", headers={"X": [v, "b"]})
+        elif api == "ctor_headers":
+            resp = Response("x", headers=Headers([("X", v)]))
+        elif api == "ctor_mimetype":
+            resp = Response("x", mimetype=v)
+        elif api == "ctor_content_type":
+            resp = Response("x", content_type=v)
+        elif api == "redirect":
+            resp = redirect(v)
+        else:
+            resp = Response("x")
+            if api == "headers_item":
+                resp.headers["X"] = v
+            elif api == "headers_add":
+                resp.headers.add("X", v)
+            elif api == "headers_setdefault":
+                resp.headers.setdefault("X", v)
+            elif api in ("location", "content_location", "content_type", "mimetype", "content_encoding", "content_md5",
+                         "content_language", "allow", "vary"):
+                setattr(resp, api, v)
+            elif api == "set_etag":
+                resp.set_etag(v)
+            elif api == "set_cookie_value":
+                resp.set_cookie("k", v)
+            elif api == "set_cookie_key":
+                resp.set_cookie(v, "v")
+            elif api == "set_cookie_path":
+                resp.set_cookie("k", "v", path=v)
+            elif api == "set_cookie_domain":
+                resp.set_cookie("k", "v", domain=v)
+            elif api == "set_cookie_samesite":
+                resp.set_cookie("k", "v", samesite=v)
+            elif api == "delete_cookie_path":
+                resp.delete_cookie("k", path=v)
+            elif api == "www_authenticate_realm":
+                resp.www_authenticate = WWWAuthenticate("basic", {"realm": v})
+            else:
+                raise ValueError(api)
+    except Exception as e:  # recorded; nothing may have been stored
+        exc = type(e).__name__
+    post = []
+    if resp is not None:
+        try:
+            post = hlist(resp.get_wsgi_response(environ_for("GET"))[2])
+        except Exception:
+            post = hlist(resp.headers)
+    c = mkcall("api", n=cps(api), vs=[spec["text"]])
+    c["kind"] = kind
+    return {"op": "hdrx", "target": "Response." + api, "pre": [], "c": c, "exc": exc, "post": post}
+
+
+def api_specs(rng, per_point):
+    specs = []
+    for api in API_POINTS:
+        for kind in VALUE_KINDS:
+            for t in rng.sample(API_TEXTS, min(per_point, len(API_TEXTS))):
+                specs.append({"api": api, "text": cps(t), "kind": kind})
     return specs
